@@ -11,10 +11,13 @@ Two specifications, both bound in both directions:
                      TraceFilterRefresh.tla validates random histories over four lists.
 """
 import collections
+import concurrent.futures
 import json
 import os
 import random
 import re
+import subprocess
+import time
 
 import vlib
 
@@ -56,10 +59,56 @@ def actions_taken(out):
     return acts
 
 
+SHARDS = 6   # test processes run side by side (the code under test forces a GC per engine rebuild,
+             # which stalls every goroutine of a process, so processes scale and goroutines do not)
+
+
+def build(ctx):
+    """Compile the overlay harness into /repo's package once (go test -c); rebuilt on every check run."""
+    if getattr(ctx, "_c15_bin", None):
+        return ctx._c15_bin
+    overlay = {os.path.join(vlib.REPO, PKG, f): os.path.join(vlib.HARNESS, PKG, f) for f in FILES}
+    ov = ctx.path("c15_overlay.json")
+    with open(ov, "w") as fh:
+        json.dump({"Replace": overlay}, fh)
+    binp = ctx.path("c15_filtering.test")
+    t = time.time()
+    try:
+        p = subprocess.run(["go", "test", "-c", "-overlay", ov, "-vet=off", "-o", binp, "./" + PKG], cwd=vlib.REPO,
+                           env=vlib.go_env(), capture_output=True, text=True, timeout=1200)
+    except subprocess.TimeoutExpired:
+        raise vlib.Inconclusive("go test -c timeout")
+    ctx.log("go test -c %s: rc=%d %.1fs" % (PKG, p.returncode, time.time() - t))
+    if p.returncode != 0 or not os.path.exists(binp):
+        raise vlib.Inconclusive("harness build failed in %s:\n%s" % (PKG, (p.stdout + p.stderr)[-3000:]))
+    ctx._c15_bin = binp
+    return binp
+
+
 def go(ctx, run, env, timeout=1500):
-    e = {"VERIF_PAR": "5"}
+    """Run one test of the built harness binary.  Returns (rc, output)."""
+    binp = build(ctx)
+    e = vlib.go_env({"VERIF_SEED": str(ctx.seed), "VERIF_TIER": ctx.tier, "GOMAXPROCS": "2", "VERIF_PAR": "1"})
     e.update(env)
-    return ctx.go_test(PKG, FILES, run, env=e, timeout=timeout)
+    t = time.time()
+    try:
+        p = subprocess.run([binp, "-test.run", run, "-test.timeout", "25m"], cwd=os.path.join(vlib.REPO, PKG), env=e,
+                           capture_output=True, text=True, timeout=timeout)
+    except subprocess.TimeoutExpired:
+        raise vlib.Inconclusive("harness test timeout (%s)" % run)
+    out = p.stdout + p.stderr
+    if "no tests to run" in out:
+        raise vlib.Inconclusive("harness test %s not found" % run)
+    return p.returncode, out
+
+
+def go_sharded(ctx, run, envs, timeout=1500):
+    """Run the same test in several processes, one environment each."""
+    t = time.time()
+    with concurrent.futures.ThreadPoolExecutor(max_workers=SHARDS) as ex:
+        res = list(ex.map(lambda e: go(ctx, run, e, timeout), envs))
+    ctx.log("harness %s x%d: %.1fs" % (run, len(envs), time.time() - t))
+    return res
 
 
 # ------------------------------------------------------------- parser half
@@ -161,12 +210,14 @@ def edge_stats(edges):
     return c
 
 
-def build_tours(edges, uni, rng, maxlen, first_id=0):
-    """Greedy edge-covering walks, one family per configuration."""
+def build_tours(edges, uni, rng, maxlen, select=None):
+    """Greedy walks that cover every selected edge (default: all), one family
+    per configuration; they may travel over any edge."""
     by_cfg = collections.defaultdict(list)
     for i, e in enumerate(edges):
         e["eid"] = i
         by_cfg[json.dumps(e["cfg"], sort_keys=True)].append(e)
+    want = None if select is None else {e["eid"] for e in select}
     tours = []
     for ck in sorted(by_cfg):
         es = by_cfg[ck]
@@ -178,10 +229,11 @@ def build_tours(edges, uni, rng, maxlen, first_id=0):
         for e in es:
             if e["act"]["a"] != "boot":
                 out[skey(e["src"])].append(e)
+        pending = collections.defaultdict(list)
         for k in out:
             rng.shuffle(out[k])
-        uncovered = {e["eid"] for e in es if e["act"]["a"] != "boot"}
-        pending = {k: [e for e in v] for k, v in out.items()}
+            pending[k] = [e for e in out[k] if want is None or e["eid"] in want]
+        left = sum(len(v) for v in pending.values())
 
         def nearest(cur):
             # BFS over states to one that still has an uncovered outgoing edge.
@@ -203,35 +255,40 @@ def build_tours(edges, uni, rng, maxlen, first_id=0):
                         q.append(d)
             return None
 
-        cur, steps = init, []
-
-        def flush():
-            nonlocal steps, cur
-            if steps:
-                tours.append({"id": first_id + len(tours), "cfg": boot[0]["cfg"], "lists": uni["block"] + uni["allow"],
-                              "block": uni["block"], "atoms": ["R1", "R2"], "steps": steps})
-            steps, cur = [], init
-
-        while uncovered:
+        cur, steps, fresh = init, [], 0
+        while left:
             if not pending.get(cur):
                 path = nearest(cur)
                 if path is None:
-                    if cur == init:
+                    if cur == init and not steps:
                         raise vlib.Inconclusive("edges unreachable from the initial state")
-                    flush()
+                    # files are never deleted: states without a file are reachable from a fresh start only
+                    path = []
+                if not path or len(steps) + len(path) >= maxlen:
+                    if fresh:
+                        tours.append(steps)
+                    cur, steps, fresh = init, [], 0
                     continue
                 for e in path:
                     steps.append(e)
                     cur = skey(e["dst"])
                 continue
             e = pending[cur].pop()
-            uncovered.discard(e["eid"])
+            left -= 1
+            fresh += 1
             steps.append(e)
             cur = skey(e["dst"])
-            if len(steps) >= maxlen:
-                flush()
-        flush()
-    return tours
+        if fresh:
+            tours.append(steps)
+        # cut the uncovering tail of each tour
+    res = []
+    for n, steps in enumerate(tours):
+        if want is not None:
+            last = max(i for i, e in enumerate(steps) if e["eid"] in want)
+            steps = steps[:last + 1]
+        res.append({"id": n, "cfg": steps[0]["cfg"], "lists": uni["block"] + uni["allow"], "block": uni["block"],
+                    "atoms": ["R1", "R2"], "steps": steps})
+    return res
 
 
 def tour_json(t):
@@ -239,15 +296,26 @@ def tour_json(t):
             "steps": [{"act": e["act"], "script": e["script"], "dst": proj(e["dst"]), "rew": e["rew"]} for e in t["steps"]]}
 
 
-def run_tours(ctx, tours, tag):
-    vin, vout = ctx.path("c15_tours_in_%s.ndjson" % tag), ctx.path("c15_tours_out_%s.ndjson" % tag)
-    vlib.write_ndjson(vin, [tour_json(t) for t in tours])
-    rc, out = go(ctx, "^TestZZVerifC15Tours$", {"VERIF_IN": vin, "VERIF_OUT": vout}, timeout=1500)
-    rows = vlib.read_ndjson(vout)
-    summ = [r for r in rows if r.get("kind") == "summary"]
-    if rc != 0 or not summ:
-        raise vlib.Inconclusive("C15 tour harness did not complete:\n" + out[-3000:])
-    return rows, summ[0]
+def run_tours(ctx, tours, tag, shards=SHARDS):
+    order = sorted(range(len(tours)), key=lambda i: -len(tours[i]["steps"]))
+    parts = [[] for _ in range(max(1, min(shards, len(tours))))]
+    for n, i in enumerate(order):
+        parts[n % len(parts)].append(tours[i])
+    envs = []
+    for n, part in enumerate(parts):
+        vin, vout = ctx.path("c15_tours_in_%s_%d.ndjson" % (tag, n)), ctx.path("c15_tours_out_%s_%d.ndjson" % (tag, n))
+        vlib.write_ndjson(vin, [tour_json(t) for t in part])
+        envs.append({"VERIF_IN": vin, "VERIF_OUT": vout})
+    rows, summ = [], {"steps": 0, "bad": 0, "tours": 0}
+    for env, (rc, out) in zip(envs, go_sharded(ctx, "^TestZZVerifC15Tours$", envs)):
+        part = vlib.read_ndjson(env["VERIF_OUT"])
+        ss = [r for r in part if r.get("kind") == "summary"]
+        if rc != 0 or not ss:
+            raise vlib.Inconclusive("C15 tour harness did not complete:\n" + out[-3000:])
+        rows += part
+        for k in summ:
+            summ[k] += ss[0][k]
+    return rows, summ
 
 
 def classify_step(edge, row):
@@ -270,90 +338,73 @@ def what_step(edge, row):
         json.dumps(row["got"]["state"], sort_keys=True))
 
 
-def refresh_replay(ctx, edges, uni, tag, rng, budget_edges=None):
-    sel = edges
-    if budget_edges is not None and len(edges) > budget_edges:
-        boots = [e for e in edges if e["act"]["a"] == "boot"]
-        rest = [e for e in edges if e["act"]["a"] != "boot"]
-        sel = boots + rng.sample(rest, budget_edges)
-        # tours need the whole graph to travel; only `sel` must be covered
-    tours = build_tours_subset(edges, sel, uni, rng) if sel is not edges else build_tours(edges, uni, rng, 250)
+def refresh_replay(ctx, edges, uni, tag, rng, budget=None):
+    select = None
+    moves = [e for e in edges if e["act"]["a"] != "boot"]
+    if budget is not None and len(moves) > budget:
+        select = rng.sample(moves, budget)
+    tours = build_tours(edges, uni, rng, 250, select)
     rows, summ = run_tours(ctx, tours, tag)
     by_id = {t["id"]: t for t in tours}
     bad = [r for r in rows if r.get("kind") == "bad"]
     skipped = [r for r in rows if r.get("kind") == "skip"]
     truncated = sum(r.get("lost", 0) for r in rows if r.get("kind") == "truncated")
     res = {"tours": len(tours), "steps": summ["steps"], "bad": len(bad), "skipped": len(skipped),
-           "truncated": truncated, "known": 0, "contact_mismatch": 0, "flaky": 0,
-           "planned": sum(len(t["steps"]) for t in tours)}
-    if bad:
-        # Reproduce in isolation: the prefix of the same tour up to the failing
-        # step, alone, a second time.
-        iso = []
-        for n, r in enumerate(bad[:400]):
-            t = by_id[r["tour"]]
-            iso.append({"id": t["id"], "cfg": t["cfg"], "lists": t["lists"], "block": t["block"], "atoms": t["atoms"],
-                        "steps": t["steps"][:r["step"] + 1], "_row": r})
-        # same tour id -> same concretisation; one tour per failing step
-        rows2 = []
-        for chunk_start in range(0, len(iso), 1):
-            pass
-        vin, vout = ctx.path("c15_iso_in_%s.ndjson" % tag), ctx.path("c15_iso_out_%s.ndjson" % tag)
-        vlib.write_ndjson(vin, [dict(tour_json(t), iso=i) for i, t in enumerate(iso)])
-        rc, out = go(ctx, "^TestZZVerifC15Tours$", {"VERIF_IN": vin, "VERIF_OUT": vout, "VERIF_PAR": "1"})
-        rows2 = vlib.read_ndjson(vout)
-        again = collections.defaultdict(list)
-        for r2 in rows2:
-            if r2.get("kind") == "bad":
-                again[(r2["tour"], r2["step"])].append(r2)
-        for t in iso:
-            r = t["_row"]
-            edge = t["steps"][r["step"]]
-            rep = [r2 for r2 in again.get((r["tour"], r["step"]), []) if sorted(r2["diffs"]) == sorted(r["diffs"])]
-            if not rep:
-                res["flaky"] += 1
-                continue
-            real = [d for d in r["diffs"] if not d.startswith("hits:")]
-            if not real:
-                res["contact_mismatch"] += 1
-                continue
-            key = classify_step(edge, r)
-            rec = {"universe": tag, "cfg": t["cfg"], "lists": t["lists"], "block": t["block"],
-                   "steps": [{"act": e["act"], "script": e["script"], "dst": proj(e["dst"]), "rew": e["rew"],
-                              "asis": proj(e["asis"])} for e in t["steps"]],
-                   "tour": t["id"], "diffs": r["diffs"], "observed": r["got"], "kind": "tour"}
-            if ctx.disagreement(key, rec, what_step(edge, r)) == "known":
-                res["known"] += 1
-    return res, tours
-
-
-def build_tours_subset(edges, sel, uni, rng):
-    """Tours that cover only the selected edges but may travel over all."""
-    want = {id(e) for e in sel}
-    # mark: reuse build_tours on a graph where unselected edges start covered
-    by = build_tours.__wrapped__ if hasattr(build_tours, "__wrapped__") else None
-    # simple approach: cover everything reachable but stop early is not possible
-    # with the greedy walker; instead give it all edges and drop tours' tails
-    # that contain no selected edge.
-    tours = build_tours(edges, uni, rng, 250)
-    out = []
-    for t in tours:
-        last = -1
-        for i, e in enumerate(t["steps"]):
-            if id(e) in want:
-                last = i
-        if last >= 0:
-            t["steps"] = t["steps"][:last + 1]
-            out.append(t)
-    return out
+           "truncated": truncated, "known": 0, "contact_mismatch": 0, "flaky": 0, "unreproduced_unchecked": 0,
+           "planned": sum(len(t["steps"]) for t in tours),
+           "selected": len(moves) if select is None else len(select), "edges": len(moves)}
+    if skipped:
+        ctx.log("skipped tours, first: %s" % json.dumps(skipped[0])[:500])
+    if not bad:
+        return res
+    # Reproduce in isolation: the prefix of the same tour up to the failing step,
+    # alone (same tour id = same concretisation), a second time.  Disagreements
+    # that look exactly alike (same edge, same differing fields) are reproduced once.
+    groups = collections.OrderedDict()
+    for r in bad:
+        edge = by_id[r["tour"]]["steps"][r["step"]]
+        groups.setdefault((edge["eid"], tuple(sorted(r["diffs"]))), []).append(r)
+    reps = [rs[0] for rs in groups.values()]
+    cap = 1500
+    res["unreproduced_unchecked"] = max(0, len(reps) - cap)
+    iso = []
+    for n, r in enumerate(reps[:cap]):
+        t = by_id[r["tour"]]
+        iso.append(dict(t, steps=t["steps"][:r["step"] + 1], row=r, iso=n))
+    rows2, _ = run_tours(ctx, iso, tag + "_iso")
+    again = collections.defaultdict(list)
+    for r2 in rows2:
+        if r2.get("kind") == "bad":
+            again[(r2["tour"], r2["step"])].append(r2)
+    for t in iso:
+        r = t["row"]
+        edge = t["steps"][r["step"]]
+        same = len(groups[(edge["eid"], tuple(sorted(r["diffs"])))])
+        rep = [r2 for r2 in again.get((r["tour"], r["step"]), []) if sorted(r2["diffs"]) == sorted(r["diffs"])]
+        if not rep:
+            res["flaky"] += same
+            continue
+        if all(d.startswith("hits:") for d in r["diffs"]):
+            res["contact_mismatch"] += same
+            continue
+        key = classify_step(edge, r)
+        rec = {"kind": "tour", "universe": tag, "cfg": t["cfg"], "lists": t["lists"], "block": t["block"],
+               "tour": t["id"], "diffs": r["diffs"], "observed": r["got"],
+               "steps": [{"act": e["act"], "script": e["script"], "dst": proj(e["dst"]), "rew": e["rew"],
+                          "asis": proj(e["asis"])} for e in t["steps"]]}
+        if ctx.disagreement(key, rec, what_step(edge, r)) == "known":
+            res["known"] += same
+    return res
 
 
 def refresh_trace(ctx):
-    tout = ctx.path("c15_refresh_trace.ndjson")
-    rc, out = go(ctx, "^TestZZVerifC15RefreshTrace$", {"VERIF_OUT": tout})
-    rows = vlib.read_ndjson(tout)
-    if rc != 0 or not rows:
-        raise vlib.Inconclusive("C15 refresh trace driver did not complete:\n" + out[-3000:])
+    envs = [{"VERIF_OUT": ctx.path("c15_refresh_trace_%d.ndjson" % n), "VERIF_SHARD": "%d/%d" % (n, SHARDS)} for n in range(SHARDS)]
+    rows = []
+    for env, (rc, out) in zip(envs, go_sharded(ctx, "^TestZZVerifC15RefreshTrace$", envs)):
+        part = vlib.read_ndjson(env["VERIF_OUT"])
+        if rc != 0 or not part:
+            raise vlib.Inconclusive("C15 refresh trace driver did not complete:\n" + out[-3000:])
+        rows += part
     verdict = validate_refresh_trace(ctx, rows)
     return rows, verdict
 
@@ -447,9 +498,9 @@ def run(ctx):
     for k in need:
         if stats[k] == 0:
             raise vlib.Inconclusive("vacuous: no edge of kind %s" % k)
-    res2, tours2 = refresh_replay(ctx, edges, UNIVERSES["FilterRefresh.mc.cfg"], "mc", rng)
+    res2 = refresh_replay(ctx, edges, UNIVERSES["FilterRefresh.mc.cfg"], "mc", rng, budget=5000 if ctx.quick else None)
     edges3 = refresh_edges(ctx, "FilterRefresh.three.cfg", coverage=False)
-    res3, tours3 = refresh_replay(ctx, edges3, UNIVERSES["FilterRefresh.three.cfg"], "three", rng)
+    res3 = refresh_replay(ctx, edges3, UNIVERSES["FilterRefresh.three.cfg"], "three", rng, budget=1000 if ctx.quick else None)
 
     # ---- refresh half, direction B
     rrows, verdict = refresh_trace(ctx)
@@ -463,8 +514,10 @@ def run(ctx):
     contact = res2["contact_mismatch"] + res3["contact_mismatch"]
     if skipped or contact:
         raise vlib.Inconclusive("tour harness skipped %d tours, %d contact mismatches" % (skipped, contact))
-    if steps_a + res2["truncated"] + res3["truncated"] < n_edges - 10:
-        raise vlib.Inconclusive("tours covered %d steps for %d edges" % (steps_a, n_edges))
+    if steps_a + res2["truncated"] + res3["truncated"] < res2["planned"] + res3["planned"]:
+        raise vlib.Inconclusive("tours walked %d of %d planned steps" % (steps_a, res2["planned"] + res3["planned"]))
+    if res2["unreproduced_unchecked"] + res3["unreproduced_unchecked"]:
+        raise vlib.Inconclusive("too many distinct disagreements to reproduce one by one")
     nontrivial_edges = sum(1 for e in edges + edges3 if e["act"]["a"] == "refresh" and (e["failed"] or e["rew"]))
     trace_steps = sum(1 for r in rrows if r.get("ev") == "step")
     samples = [
@@ -482,7 +535,8 @@ def run(ctx):
                 "trace lines: random texts / random refresh histories validated by TLC",
         "parser_vectors": len(vectors), "parser_vector_kinds": dict(vkinds), "parser_vectors_replayed": psumm["n"],
         "parser_bad": len(pbad), "parser_trace_lines": len(trows), "parser_trace_rejected": len(tbad),
-        "refresh_edges": n_edges, "refresh_edge_kinds": dict(stats), "refresh_steps_walked": steps_a,
+        "refresh_edges": n_edges, "refresh_edges_selected": res2["selected"] + res3["selected"],
+        "refresh_edge_kinds": dict(stats), "refresh_steps_walked": steps_a,
         "refresh_tours": res2["tours"] + res3["tours"], "refresh_steps_planned": res2["planned"] + res3["planned"],
         "refresh_bad_steps": res2["bad"] + res3["bad"], "refresh_flaky": res2["flaky"] + res3["flaky"] + resb["flaky"],
         "refresh_known_finding_steps": res2["known"] + res3["known"] + resb["known"],
@@ -490,7 +544,7 @@ def run(ctx):
         "refresh_trace_steps": trace_steps, "refresh_trace_rejected": len(verdict["bad"]),
         "refresh_trace_asis": len(verdict["asis"]),
         "negative_config": "FilterRefresh.asis.cfg violates FailureIsNoOp as expected",
-        "exhaustive": True, "samples": samples,
+        "exhaustive": not ctx.quick, "samples": samples,
     }
     return ctx.finish("model_checking", cov, assumptions=[
         "TLC; conc()/lex() of zz_verif_c15_test.go (token spellings and the longest-match lexer over the same spellings)",
@@ -507,7 +561,6 @@ def replay(ctx, path):
     kind = rec.get("kind")
     if kind in ("parser", "parser-trace"):
         t = rec["t"] if kind == "parser" else rec["line"]["t"]
-        r = ctx.tlc("RuleList", "RuleList.q1.cfg", workers=2, timeout=300)   # builds nothing for t; use the trace spec instead
         rows, summ = parser_replay(ctx, [{"t": t, "adm": rec.get("adm") or []}], tag="r")
         bad = [x for x in rows if x.get("kind") in ("bad", "chunking")]
         print(json.dumps({"text": t, "admissible": rec.get("adm"), "observed": [b["got"] for b in bad] or "admissible"}, indent=1))
